@@ -142,6 +142,15 @@ class Ctx:
                     amb = {k: AMBIENT_VALUES[k] for k in self.ambient}
                     case['_amb'] = amb
         util.AMBIENT = amb or {}
+        # how "on" is spelt when a judge switches lsb0 on (the option is documented as a bool; any truthy value must do the same)
+        if isinstance(case, dict):
+            if '_on' in case:
+                util.LSB0_ON = case['_on']
+            else:
+                self._on_n = getattr(self, '_on_n', 0) + 1
+                util.LSB0_ON = self._on_n % 5 if self._on_n % 3 == 0 else 0
+                if util.LSB0_ON:
+                    case['_on'] = util.LSB0_ON
         before = util.get_options()
         try:
             with self.watch(case):
@@ -151,6 +160,9 @@ class Ctx:
                           traceback.format_exc()[-500:])
         finally:
             util.AMBIENT = {}
+            if util.LSB0_ON:
+                self.ops['lsb0-switched-on-with:' + ('True', '1', '2', "'yes'", 'numpy.bool_(True)')[util.LSB0_ON]] += 1
+            util.LSB0_ON = 0
             if amb:
                 util.set_options(before)
                 self.ops['ambient:' + '+'.join(sorted(amb))] += 1
